@@ -376,7 +376,7 @@ func ruleC15Wire(p *Prog, r *Report) {
 
 // R-C15-CUT: which characters each trim removes, and from which end.
 func ruleC15Cut(p *Prog, r *Report) {
-	r.Begin("R-C15-CUT", "in the text node: trimLeft/trimRight cut {space, tab, CR, LF} (at least; only white space) from their own end; LStripBlocks cuts exactly {space, tab} from the right end; TrimBlocks removes exactly one leading LF; each only under its own flag pair", 4)
+	r.Begin("R-C15-CUT", "in the text node: trimLeft/trimRight cut {space, tab, CR, LF} (at least; only white space) from their own end; LStripBlocks cuts exactly {space, tab} from the right end; TrimBlocks removes exactly one leading newline, LF or CR LF; each only under its own flag pair", 4)
 	nh := p.Method("nodeHTML", "Execute")
 	if nh == nil {
 		r.Unk("anchor", "-", "anchor unresolved: (*nodeHTML).Execute")
@@ -426,6 +426,11 @@ func ruleC15Cut(p *Prog, r *Report) {
 	ws := setOf(" \t\r\n")
 	anyWS := setOf(" \t\r\n\v\f")
 	nTrim := 0
+	type nlCut struct {
+		what string
+		at   ssa.Instruction
+	}
+	var nlCuts []nlCut
 	var instrs []ssa.Instruction
 	for _, fn := range cluster {
 		for _, b := range fn.Blocks {
@@ -491,9 +496,10 @@ func ruleC15Cut(p *Prog, r *Report) {
 					r.OK(key, p.InstrPos(in), "%s with %s", fn, showSet(cs))
 				}
 			case fl["TrimBlocks"] || fl["afterBlock"]:
-				key := "nodeHTML.Execute:TrimBlocks"
-				if name == "strings.TrimPrefix" && okCut && cut == "\n" && fl["TrimBlocks"] && fl["afterBlock"] {
-					r.OK(key, p.InstrPos(in), "TrimPrefix of one LF")
+				key := "nodeHTML.Execute:TrimBlocks" + nlKey(cut)
+				if name == "strings.TrimPrefix" && okCut && isNewlineForm(cut) && fl["TrimBlocks"] && fl["afterBlock"] {
+					nlCuts = append(nlCuts, nlCut{cut, in})
+					r.OK(key, p.InstrPos(in), "TrimPrefix of one newline (%q)", cut)
 				} else {
 					r.Bad(key, p.InstrPos(in), "TrimBlocks removes with %s(%q): exactly the first newline after the tag goes, nothing else", name, cut)
 				}
@@ -512,13 +518,24 @@ func ruleC15Cut(p *Prog, r *Report) {
 			if x.Low != nil {
 				low, okLow = constInt(x.Low)
 			}
-			lf := false
+			// what the bytes that go were tested to be: byte tests x[i] == c at constant positions, or HasPrefix(x, "…")
+			tested := map[int64]byte{}
+			prefix := ""
 			eachDominatingCond(in, func(c ssa.Value, pol bool) bool {
-				bo, ok := c.(*ssa.BinOp)
-				if !ok || bo.Op != token.EQL || !pol {
+				if !pol {
 					return false
 				}
-				if k, isK := constInt(bo.Y); isK && k == '\n' {
+				if hc, ok := c.(*ssa.Call); ok && hc.Common().StaticCallee() != nil && p.extName(hc.Common().StaticCallee()) == "strings.HasPrefix" && p.VN(hc.Common().Args[0]) == p.VN(x.X) {
+					if sv, okS := stringValueOf(p, hc.Common().Args[1]); okS {
+						prefix = sv
+					}
+					return false
+				}
+				bo, ok := c.(*ssa.BinOp)
+				if !ok || bo.Op != token.EQL {
+					return false
+				}
+				if k, isK := constInt(bo.Y); isK && k >= 0 && k < 256 {
 					var sx, si ssa.Value
 					switch ix := bo.X.(type) {
 					case *ssa.Lookup:
@@ -527,28 +544,85 @@ func ruleC15Cut(p *Prog, r *Report) {
 						sx, si = ix.X, ix.Index
 					}
 					if sx != nil {
-						if i0, isZ := constInt(si); isZ && i0 == 0 && p.VN(sx) == p.VN(x.X) {
-							lf = true
+						if i0, isZ := constInt(si); isZ && i0 >= 0 && p.VN(sx) == p.VN(x.X) {
+							tested[i0] = byte(k)
 						}
 					}
 				}
 				return false
 			})
+			what := prefix
+			if what == "" && okLow && low >= 1 && low <= 2 {
+				var bs []byte
+				for i := int64(0); i < low; i++ {
+					if c, has := tested[i]; has {
+						bs = append(bs, c)
+					}
+				}
+				if int64(len(bs)) == low {
+					what = string(bs)
+				}
+			}
+			key += nlKey(what)
 			switch {
 			case !(fl["TrimBlocks"] && fl["afterBlock"]):
 				r.Bad(key, p.InstrPos(in), "the text is resliced outside the TrimBlocks/afterBlock flags (%v)", keysOf(fl))
-			case !okLow || low != 1 || x.High != nil:
-				r.Bad(key, p.InstrPos(in), "TrimBlocks reslices %s[%s:%s]: exactly one leading byte goes", p.VN(x.X), vnOrEmpty(p, x.Low), vnOrEmpty(p, x.High))
-			case !lf:
-				r.Bad(key, p.InstrPos(in), "the byte TrimBlocks removes was not tested to be a line feed at position 0")
+			case !okLow || low < 1 || x.High != nil:
+				r.Bad(key, p.InstrPos(in), "TrimBlocks reslices %s[%s:%s]: exactly the leading newline goes", p.VN(x.X), vnOrEmpty(p, x.Low), vnOrEmpty(p, x.High))
+			case what == "" || int64(len(what)) != low:
+				r.Bad(key, p.InstrPos(in), "the %d byte(s) TrimBlocks removes were not tested to be a newline at the start of the text (tested: %q)", low, what)
+			case !isNewlineForm(what):
+				r.Bad(key, p.InstrPos(in), "TrimBlocks removes %q: exactly the first newline after the tag goes (LF, or the CR LF of a CRLF document), nothing else", what)
 			default:
-				r.OK(key, p.InstrPos(in), "removes the first byte, tested to be LF, only under TrimBlocks && afterBlock")
+				nlCuts = append(nlCuts, nlCut{what, in})
+				r.OK(key, p.InstrPos(in), "removes the leading %q, tested to be there, only under TrimBlocks && afterBlock", what)
 			}
 		}
 	}
 	if nTrim < 4 {
 		r.Unk("nodeHTML.Execute:trims", p.Pos(nh.Pos()), "expected the four trims (two markers, TrimBlocks, LStripBlocks) in the text node, found %d", nTrim)
 	}
+	// the newline TrimBlocks removes: a document's line ends are LF or CR LF (the property's alphabet names both); one
+	// newline goes, so no cut can follow another
+	if len(nlCuts) > 0 {
+		has := map[string]bool{}
+		for _, c := range nlCuts {
+			has[c.what] = true
+		}
+		if has["\n"] && has["\r\n"] {
+			r.OK("nodeHTML.Execute:TrimBlocks:newline-forms", p.Pos(nh.Pos()), "both LF and CR LF are removed as the first newline after a block tag")
+		} else {
+			r.Bad("nodeHTML.Execute:TrimBlocks:newline-forms", p.Pos(nh.Pos()), "TrimBlocks removes %v only: in a document with CR LF line ends the first byte after `%%}` is CR, the test for LF fails and the option does nothing there (the output equals TrimBlocks=false), while the `-` markers treat CR as white space", keysOf(has))
+		}
+		twice := false
+		for _, a1 := range nlCuts {
+			for _, a2 := range nlCuts {
+				if a1.at == a2.at {
+					continue
+				}
+				if (a1.at.Block() == a2.at.Block() && instrIndex(a1.at) < instrIndex(a2.at)) || (a1.at.Block() != a2.at.Block() && a1.at.Parent() == a2.at.Parent() && ReachableBlocks(a1.at.Block())[a2.at.Block()]) {
+					twice = true
+				}
+			}
+		}
+		if twice {
+			r.Bad("nodeHTML.Execute:TrimBlocks:one-newline", p.Pos(nh.Pos()), "one removal of a newline can be followed by another: two line ends after a block tag disappear where exactly the first one goes")
+		} else {
+			r.OK("nodeHTML.Execute:TrimBlocks:one-newline", p.Pos(nh.Pos()), "the removals of a newline exclude each other: at most one newline goes")
+		}
+	}
+}
+
+func isNewlineForm(s string) bool { return s == "\n" || s == "\r\n" || s == "\r" }
+
+func nlKey(what string) string {
+	switch what {
+	case "\r\n":
+		return ":crlf"
+	case "\r":
+		return ":cr"
+	}
+	return ""
 }
 
 func keysOf(m map[string]bool) []string {
